@@ -70,6 +70,12 @@ secret falls back to another secret) -/
 theorem config_keys_and_defaults_are_own_variables :
     Token.configLines.all (fun l => l.2.2.1 == l.1 && l.2.2.2.2 == l.1) = true := by decide
 
+/-- the setters config() calls hand the ini value (or the default) over unchanged: `runConfig` takes the
+configured secret at its FULL length — no truncation, hashing or other transformation that could make
+different configured secrets one key -/
+theorem config_setters_are_plain_forwarders :
+    Token.settersPlain = [("setStringConfig", true), ("setBytesConfig", true), ("setIntConfig", true)] := by decide
+
 /-- config() assigns each of the three secrets exactly once -/
 theorem config_assigns_each_secret_once :
     ["JWT_SECRET", "REFRESH_JWT_SECRET", "EMAIL_JWT_SECRET"].all
